@@ -431,14 +431,17 @@ static void actor_flags(const struct actor *a) {
     }
 }
 
-static void end_checks(struct aws_allocator *sba, size_t max_reserved_seen, const struct mon_alloc_stats *st0, uint64_t pages0) {
+static void end_checks(struct aws_allocator *sba, size_t max_reserved_seen, const struct mon_alloc_stats *st0, uint64_t pages0, uint64_t bins_used) {
     size_t active = aws_small_block_allocator_bytes_active(sba);
     size_t reserved = aws_small_block_allocator_bytes_reserved(sba);
     if (active != 0) {
         mon_violation("C03:bytes-active-after-drain", "everything released but bytes_active = %zu", active);
     }
-    if (reserved > 5 * PAGE) {
-        mon_violation("C03:bytes-reserved-after-drain", "everything released but bytes_reserved = %zu (> one %u-byte page per size class)", reserved, PAGE);
+    /* at most one working page per size class, and only classes that were ever used can hold one */
+    size_t classes_used = (size_t)__builtin_popcountll(bins_used & (32 | 64 | 128 | 256 | 512));
+    if (reserved > classes_used * PAGE) {
+        mon_violation("C03:bytes-reserved-after-drain", "everything released but bytes_reserved = %zu: more than one %u-byte page for each of the %zu size classes used", reserved,
+                      PAGE, classes_used);
     } else if (max_reserved_seen > 5 * PAGE) {
         mon_flag(F_DRAINED_TO_FIVE_PAGES);
     }
@@ -552,7 +555,7 @@ static void seq_case(void) {
     mon_sample("seq: multi_threaded=%d parent_realloc=%d ops=%zu cap=%zu max_reserved=%zu pages s2l=%llu l2s=%llu shrink=%llu calloc=%llu large=%llu reused=%llu", mt,
                parent_full, nops, a.cap, max_reserved / PAGE, (unsigned long long)a.n_realloc_s2l, (unsigned long long)a.n_realloc_l2s,
                (unsigned long long)a.n_shrink_inplace, (unsigned long long)a.n_calloc, (unsigned long long)a.n_large, (unsigned long long)a.n_reused);
-    end_checks(sba, max_reserved, &st0, pages0);
+    end_checks(sba, max_reserved, &st0, pages0, a.bins_seen);
     free(a.live);
 }
 
@@ -730,8 +733,9 @@ static void thr_case(void) {
     }
     perturb_end();
     mon_watchdog_disarm();
-    uint64_t sent = 0, total_ops = 0;
+    uint64_t sent = 0, total_ops = 0, bins_used = 0;
     for (int t = 0; t < W.n; ++t) {
+        bins_used |= W.w[t].a.bins_seen;
         actor_flags(&W.w[t].a);
         sent += W.w[t].received;
         total_ops += W.w[t].nops;
@@ -756,7 +760,7 @@ static void thr_case(void) {
     mon_count_max("max_bytes_reserved", W.max_reserved);
     mon_sample("thr: threads=%d rounds=%zu ops/thread=%zu profile=%s handed_over=%llu max_reserved=%zu pages sig=%016llx", W.n, W.rounds, ops_per_thread,
                perturb_profile_name(prof_idx), (unsigned long long)sent, W.max_reserved / PAGE, (unsigned long long)perturb_signature());
-    end_checks(W.sba, W.max_reserved, &st0, pages0);
+    end_checks(W.sba, W.max_reserved, &st0, pages0, bins_used);
 }
 
 int main(int argc, char **argv) {
